@@ -6,6 +6,8 @@ reference parser R1 (lib/refparser.py).  Workload: exhaustive strings over the t
 length bound + random derivations of the published grammar + one-token mutants of those.
 """
 import itertools
+import os
+import random
 
 from lib import gram, refparser, treeconv
 
@@ -19,6 +21,7 @@ RULE = ('token strings: (a) every string over the %d-token alphabet up to length
 RULE += ' One grammar-derived case in eight is preceded by an arbitrary earlier call on the long-lived parser (failed parses, abandoned/suspended list_names, failing evals, names=None evals); one in five goes through a caching parser together with two sibling texts that differ only inside their string literals (with # in them).'
 RULE += ' String literals include ones spelled like keyword constants and numbers ("True", \'None\', "12") and ones holding the characters str.splitlines() breaks at (FF, VT, FS, NEL, U+2028, U+2029).'
 RULE += ' On the caching parser, texts are also submitted through eval() as instances of a str subclass whose == ignores case (the text, its case-swapped sibling, the text again): the tree eval evaluates must be the tree of that text.'
+RULE += ' (c) coverage-guided texts: one atheris/libFuzzer process per worker (6 s quick, 150 s thorough) on the instrumented sandbox copy, differential target (reference lexer + reference parser vs parse(), accept-iff-accept and tree equality, the listed known finding excluded); every input on which the sides disagreed there is judged again by the worker.'
 ASSUMPTIONS = [
     'R1 (lib/refparser.py) is the reading of "the published grammar and operator table": declared levels/associativity, '
     'yacc shift/reduce rule, greedy lambda bodies and conditional branches, the 8 slice forms, index-only assignment targets',
@@ -73,6 +76,10 @@ def cases(ctx):
             n += 1
     # (b) grammar-derived sentences and mutants
     rnd = ctx.rnd
+    if os.environ.get('C06_ONLY') == 'cgf':          # development aid (never set by a registered command)
+        yield ('cgf', rnd.getrandbits(30), ctx.scale(6, 150))
+        return
+    yield ('cgf', rnd.getrandbits(30), ctx.scale(6, 150))          # (c) coverage-guided texts, one differential fuzzing process per worker
     for i in range(ctx.scale(9000, 220000)):
         used = set()
         types = gram.gen('code', rnd, rnd.randint(2, 7), used)
@@ -144,7 +151,70 @@ def same(i, r):
     return i == r or (i[0] == 'rej' and r[0] == 'rej')
 
 
+def judge_text(ctx, case, text):
+    """a text as it stands (no rendering): reference lexer + reference parser vs parse()"""
+    from lib import reflex
+    try:
+        toks = [(t[0], t[1]) for t in reflex.tokens(text)]
+    except reflex.LexError:
+        toks = None
+    try:
+        i = impl_parse(ctx, text, False)
+    except RecursionError:
+        return
+    if i[0] == 'rej' and i[1] == 'RecursionError':
+        return
+    ctx.count('texts_judged_as_they_stand')
+    if toks is None:
+        if i[0] == 'ok':
+            ctx.violation('implementation accepts a text the reference lexer rejects', case, detail={'text': text[:400], 'impl': str(i[1])[:400]})
+        return
+    r = ref_parse(toks)
+    if r[0] == 'skip' or same(i, r):
+        return
+    finding = None
+    for q in ('paren1', 'notin', 'dictcomma', 'methcomma'):
+        if same(i, ref_parse(toks, (q,))):
+            finding = QUIRK_OF[q]
+            break
+    what = ('implementation %s, reference %s' % ('accepts' if i[0] == 'ok' else 'rejects', 'accepts' if r[0] == 'ok' else 'rejects')
+            if i[0] != r[0] else 'both accept, trees differ')
+    ctx.violation(what, case, finding=finding, detail={'text': text[:400], 'impl': str(i[1])[:700], 'ref': str(r[1])[:700]})
+
+
+def run_cgf(case, ctx):
+    """coverage-guided generation of texts (atheris / libFuzzer on the instrumented sandbox copy, lib/cgfuzz.py, differential target); every input on which
+    the two sides disagreed there is judged again here"""
+    from lib import cgdriver
+    _, seed, seconds = case
+    r = random.Random(seed)
+    seeds = ['x = [1, 2]\nx | map(v => v * 2)', 'f(1, {"a": b.c(d),}) if not x else y[1:2]', 'd["k"] += 1; del l[0]', '%a b% = r"\\d+" # c\n(p, q) => p ** -q', 'a and b not in c or not d == e',
+             'x.f(1, 2,) | g | h(3)', 'v => w => v if w else 0', '-a[1] ** -b.c()', '{1: [2, {"k": (3)}], "s": \'q\'}', 'a < b', 'x = y = 1', '(a) => a', 'a.b', '1 2', 'for x']
+    for i in range(12):
+        seeds.append(gram.render(gram.gen('code', r, r.randint(1, 5))[:60], Cyc(r.getrandbits(20)))[1])
+    out = cgdriver.run(ctx, 'c06', seed, seconds, seeds)
+    if out is None:
+        return
+    st, fired, _slow = out
+    for k in ('lexically_invalid', 'syntactically_invalid', 'valid', 'known_finding'):
+        ctx.count('coverage_guided_texts_' + k, st.get(k, 0))
+    for text in fired:
+        ctx.count('inputs_on_which_the_two_sides_disagreed_in_the_fuzzing_process')
+        before = len(ctx.violations)
+        judge_text(ctx, ('text', text, 0), text)
+        if len(ctx.violations) == before:
+            ctx.violation('coverage-guided fuzzing: the two sides disagreed in the fuzzing process but not when the input was judged again here', ('text', text, 0), detail={'text': text[:300]})
+
+
+def case_deadline(case):
+    return case[2] + 200 if case[0] == 'cgf' else CASE_DEADLINE
+
+
 def run_case(case, ctx):
+    if case[0] == 'cgf':
+        return run_cgf(case, ctx)
+    if case[0] == 'text':
+        return judge_text(ctx, case, case[1])
     kind, types, seed = case[0], case[1], case[2]
     simple = kind.startswith('exh')
     toks, text = gram.render(types, Cyc(seed + len(types)), simple=simple)
